@@ -1,4 +1,4 @@
-import XmpModel.Md5
+import XmpModel.Container
 /-!
 Helper lemmas for C08: MD5 buffering (`src/md5.c`) — the buffered `MD5Update` is the block fold
 over the concatenated input.  (Container lemmas follow below.)
@@ -104,3 +104,233 @@ theorem update_wf (s : Ctx) (inp : Bytes) (hs : WF s) : WF (update s inp) := by
 theorem init_wf : WF init := by simp [WF, init]
 
 end Xmp.Md5
+
+namespace Xmp.Container
+open Xmp Xmp.Gen.Depackers
+
+/-! ## gzip framing -/
+
+
+def mkFlg (t h e n c : Bool) (r : Nat) : Nat :=
+  (if t then gzFTEXT else 0) + (if h then gzFHCRC else 0) + (if e then gzFEXTRA else 0) +
+  (if n then gzFNAME else 0) + (if c then gzFCOMMENT else 0) + 32 * (r % 8)
+
+theorem flg_bits : ∀ (t h e n c : Bool) (r : Fin 8),
+    hasFlag (UInt8.ofNat (mkFlg t h e n c r.val)) gzFEXTRA = e ∧
+    hasFlag (UInt8.ofNat (mkFlg t h e n c r.val)) gzFNAME = n ∧
+    hasFlag (UInt8.ofNat (mkFlg t h e n c r.val)) gzFCOMMENT = c ∧
+    hasFlag (UInt8.ofNat (mkFlg t h e n c r.val)) gzFHCRC = h := by decide
+
+theorem flg_eq (o : GzOpts) :
+    o.flg = mkFlg o.ftext o.hcrc.isSome o.extra.isSome o.name.isSome o.comment.isSome (o.reserved % 8) := by
+  simp [GzOpts.flg, mkFlg]
+
+theorem flg_bits' (o : GzOpts) :
+    hasFlag (UInt8.ofNat o.flg) gzFEXTRA = o.extra.isSome ∧
+    hasFlag (UInt8.ofNat o.flg) gzFNAME = o.name.isSome ∧
+    hasFlag (UInt8.ofNat o.flg) gzFCOMMENT = o.comment.isSome ∧
+    hasFlag (UInt8.ofNat o.flg) gzFHCRC = o.hcrc.isSome := by
+  rw [flg_eq]
+  exact flg_bits o.ftext o.hcrc.isSome o.extra.isSome o.name.isSome o.comment.isSome ⟨o.reserved % 8, by omega⟩
+
+theorem skipZ_append (n rest : Bytes) (hn : noNul n) : skipZ (n ++ 0 :: rest) = some rest := by
+  induction n with
+  | nil => simp [skipZ]
+  | cons c n ih =>
+    have hc : c ≠ 0 := hn c (by simp)
+    have hn' : noNul n := fun x hx => hn x (by simp [hx])
+    simp [skipZ, hc, ih hn']
+
+theorem u16le_le16 (n : Nat) (h : n < 65536) :
+    u16le (UInt8.ofNat (n % 256)) (UInt8.ofNat (n / 256 % 256)) = n := by
+  simp [u16le, UInt8.toNat_ofNat']
+  omega
+
+theorem u32At_le32 (n : Nat) (h : n < 2^32) (r : Bytes) : u32At (le32 n ++ r) 0 = n := by
+  simp [u32At, le32, u32le, UInt8.toNat_ofNat']
+  omega
+
+theorem u32At_le32_4 (m n : Nat) (h : n < 2^32) (r : Bytes) : u32At (le32 m ++ (le32 n ++ r)) 4 = n := by
+  simp [u32At, le32, u32le, UInt8.toNat_ofNat']
+  omega
+
+/-- the header parser skips exactly the header, for every legal option combination -/
+theorem gzipBody_header (o : GzOpts) (ho : o.Legal) (rest : Bytes) :
+    gzipBody (gzipHeader o ++ rest) = some rest := by
+  obtain ⟨hE, hN, hC, hH⟩ := flg_bits' o
+  obtain ⟨lE, lN, lC⟩ := ho
+  unfold gzipBody gzipHeader
+  simp only [le32, List.cons_append, List.nil_append, List.append_assoc]
+  simp only [hE, hN, hC, hH, ne_eq, not_true_eq_false, if_false]
+  have e1 : ∀ X : Bytes, (if o.extra.isSome = true then
+       gzSkipExtra (optField o.extra (fun e => le16 e.length ++ e) ++ X)
+     else some (optField o.extra (fun e => le16 e.length ++ e) ++ X)) = some X := by
+    intro X
+    rcases hx : o.extra with _ | e
+    · simp [optField]
+    · have := lE e hx
+      simp [optField, le16, gzSkipExtra, u16le_le16 _ this]
+  have e2 : ∀ X : Bytes, (if o.name.isSome = true then skipZ (optField o.name (fun n => n ++ [0]) ++ X)
+      else some (optField o.name (fun n => n ++ [0]) ++ X)) = some X := by
+    intro X
+    rcases hx : o.name with _ | n
+    · simp [optField]
+    · simp [optField, skipZ_append n X (lN n hx)]
+  have e3 : ∀ X : Bytes, (if o.comment.isSome = true then skipZ (optField o.comment (fun n => n ++ [0]) ++ X)
+      else some (optField o.comment (fun n => n ++ [0]) ++ X)) = some X := by
+    intro X
+    rcases hx : o.comment with _ | n
+    · simp [optField]
+    · simp [optField, skipZ_append n X (lC n hx)]
+  have e4 : ∀ X : Bytes, (if o.hcrc.isSome = true then gzSkip2 (hcrcField o.hcrc ++ X)
+      else some (hcrcField o.hcrc ++ X)) = some X := by
+    intro X
+    rcases hx : o.hcrc with _ | ⟨a, b⟩
+    · simp [hcrcField]
+    · simp [hcrcField, gzSkip2]
+  rw [e1]
+  simp only [bind, Option.bind]
+  rw [e2]
+  simp only []
+  rw [e3]
+  simp only []
+  rw [e4]
+
+theorem u32At_le32_4' (m n : Nat) (h : n < 2^32) : u32At (le32 m ++ le32 n) 4 = n := by
+  simp [u32At, le32, u32le, UInt8.toNat_ofNat']
+  omega
+
+theorem le32_length (n : Nat) : (le32 n).length = 4 := rfl
+
+theorem gunzip_wrap (crc : Bytes → UInt32) (dec : Bytes → Option Bytes) (o : GzOpts) (cdata p : Bytes)
+    (ho : o.Legal) (hp : p.length < 2^31) :
+    gunzip crc dec (gzipWrap crc o cdata p) =
+      (match dec cdata with
+       | none => none
+       | some out => if crc out = crc p ∧ out.length = p.length then some out else none) := by
+  unfold gunzip gzipWrap
+  rw [List.append_assoc, List.append_assoc, gzipBody_header o ho]
+  have hl : (cdata ++ (le32 (crc p).toNat ++ le32 p.length)).length - 8 = cdata.length := by
+    simp [le32_length]
+  have hn : ¬ (cdata ++ (le32 (crc p).toNat ++ le32 p.length)).length < 8 := by
+    simp [le32_length]
+  simp only [hn, if_false, hl, List.take_left', List.drop_left']
+  rcases dec cdata with _ | out
+  · rfl
+  · have hc : (crc p).toNat < 2^32 := (crc p).toNat_lt
+    simp only [gzipGate, u32At_le32 _ hc, u32At_le32_4' _ _ (by omega : p.length < 2^32)]
+    by_cases h1 : crc out = crc p
+    · by_cases h2 : out.length = p.length
+      · simp [h1, h2, hp]
+      · have : ¬ p.length = out.length := fun h => h2 h.symm
+        simp [h1, h2, this]
+    · have : ¬ (crc p).toNat = (crc out).toNat := fun h => h1 (UInt32.toNat_inj.mp h.symm)
+      simp [h1, this]
+
+theorem gzipStream_wrap (crc : Bytes → UInt32) (o : GzOpts) (cdata p : Bytes) (ho : o.Legal) :
+    gzipStream (gzipWrap crc o cdata p) = some ((gzipHeader o).length, cdata.length) := by
+  unfold gzipStream gzipWrap
+  rw [List.append_assoc, List.append_assoc, gzipBody_header o ho]
+  simp [le32_length]
+
+theorem bAt_sniff (f : Bytes) (i : Nat) (h : i < sniffSize) : bAt (sniff f) i = bAt f i := by
+  unfold bAt sniff
+  simp [List.getD_eq_getElem?_getD, h]
+
+theorem dispatch_gzip (crc : Bytes → UInt32) (o : GzOpts) (cdata p : Bytes)
+    (hlen : minHeaderSize ≤ (gzipWrap crc o cdata p).length) :
+    dispatch (gzipWrap crc o cdata p) = some "gzip" := by
+  have h0 : bAt (sniff (gzipWrap crc o cdata p)) 0 = 31 := by
+    rw [bAt_sniff _ _ (by decide)]; simp [bAt, gzipWrap, gzipHeader]
+  have h1 : bAt (sniff (gzipWrap crc o cdata p)) 1 = 139 := by
+    rw [bAt_sniff _ _ (by decide)]; simp [bAt, gzipWrap, gzipHeader]
+  have h2 : bAt (sniff (gzipWrap crc o cdata p)) 2 = 8 := by
+    rw [bAt_sniff _ _ (by decide)]; simp [bAt, gzipWrap, gzipHeader]
+  have hs : ¬ (sniff (gzipWrap crc o cdata p)).length < minHeaderSize := by
+    have hm : minHeaderSize ≤ sniffSize := by decide
+    unfold sniff; simp only [List.length_take]; omega
+  unfold dispatch
+  simp only [hs, if_false]
+  simp [depackerList, List.find?, evalMagic, h0, h1, h2]
+
+/-! ## RLE90 and member selection -/
+
+
+def Tok.outLen : Tok → Nat
+  | .lit _ => 1
+  | .lit90 => 1
+  | .rep n => n.toNat - 1
+
+def outLen (ts : List Tok) : Nat := (ts.map Tok.outLen).sum
+
+theorem expandGo_length (ts : List Tok) (acc : Bytes) (last : UInt8) :
+    (expandGo ts acc last).length = acc.length + outLen ts := by
+  induction ts generalizing acc last with
+  | nil => simp [expandGo, outLen]
+  | cons t ts ih =>
+    cases t <;> simp [expandGo, ih, outLen, Tok.outLen] <;> omega
+
+theorem unrle90Go_render (ts : List Tok) (room : Nat) (acc : Bytes) (last : UInt8) (blk : Bool)
+    (hok : ∀ t ∈ ts, t.Ok) (hroom : outLen ts ≤ room) :
+    unrle90Go (render ts) room acc last false blk = some (room - outLen ts, expandGo ts acc last) := by
+  induction ts generalizing room acc last blk with
+  | nil => simp [render, unrle90Go, expandGo, outLen]
+  | cons t ts ih =>
+    have hok' : ∀ t ∈ ts, t.Ok := fun t ht => hok t (by simp [ht])
+    have ht : t.Ok := hok t (by simp)
+    cases t with
+    | lit b =>
+      have hb : b ≠ 0x90 := ht
+      have hr : outLen ts + 1 ≤ room := by simpa [outLen, Tok.outLen, Nat.add_comm] using hroom
+      have hpos : room > 0 := by omega
+      have := ih (room - 1) (b :: acc) b true hok' (by omega)
+      simp only [render, List.flatMap_cons, Tok.render, List.cons_append, List.nil_append] at this ⊢
+      simp only [unrle90Go, hb, if_false, hpos, if_true, expandGo]
+      rw [this]; simp [outLen, Tok.outLen]; omega
+    | lit90 =>
+      have hr : outLen ts + 1 ≤ room := by simpa [outLen, Tok.outLen, Nat.add_comm] using hroom
+      have hpos : ¬ room = 0 := by omega
+      have := ih (room - 1) (0x90 :: acc) 0x90 false hok' (by omega)
+      simp only [render, List.flatMap_cons, Tok.render, List.cons_append, List.nil_append] at this ⊢
+      simp only [unrle90Go, if_true, hpos, if_false, expandGo]
+      rw [this]; simp [outLen, Tok.outLen]; omega
+    | rep n =>
+      have hn : n ≠ 0 := ht
+      have hr : outLen ts + (n.toNat - 1) ≤ room := by simpa [outLen, Tok.outLen, Nat.add_comm] using hroom
+      have hle : ¬ n.toNat - 1 > room := by omega
+      have := ih (room - (n.toNat - 1)) (List.replicate (n.toNat - 1) last ++ acc) last false hok' (by omega)
+      simp only [render, List.flatMap_cons, Tok.render, List.cons_append, List.nil_append] at this ⊢
+      simp only [unrle90Go, if_true, hn, if_false, hle, expandGo]
+      rw [this]; simp [outLen, Tok.outLen]; omega
+
+/-- RLE90: decoding any well-formed token stream into a buffer of exactly the right size yields its meaning -/
+theorem unrle90_render (ts : List Tok) (hok : ∀ t ∈ ts, t.Ok) :
+    unrle90 (expand ts).length (render ts) = some (expand ts) := by
+  have hl : (expand ts).length = outLen ts := by
+    simp [expand, expandGo_length]
+  unfold unrle90
+  rw [hl, unrle90Go_render ts (outLen ts) [] 0 false hok (Nat.le_refl _)]
+  simp [expand]
+
+def Skipped (m : Member) : Prop := m.isDir = true ∨ m.supported = false ∨ excludeMatch m.name = true
+
+theorem selectMember_skip (pre post : List Member) (m : Member)
+    (hpre : ∀ x ∈ pre, Skipped x) (hm : ¬ Skipped m) :
+    selectMember (pre ++ m :: post) = some m := by
+  unfold selectMember
+  induction pre with
+  | nil =>
+    simp only [List.nil_append, List.find?_cons]
+    unfold Skipped at hm
+    have : (!m.isDir && m.supported && !excludeMatch m.name) = true := by
+      cases h1 : m.isDir <;> cases h2 : m.supported <;> cases h3 : excludeMatch m.name <;> simp_all
+    simp [this]
+  | cons x pre ih =>
+    have hx : Skipped x := hpre x (by simp)
+    have : (!x.isDir && x.supported && !excludeMatch x.name) = false := by
+      unfold Skipped at hx
+      cases h1 : x.isDir <;> cases h2 : x.supported <;> cases h3 : excludeMatch x.name <;> simp_all
+    simp only [List.cons_append, List.find?_cons, this]
+    exact ih (fun y hy => hpre y (by simp [hy]))
+
+end Xmp.Container
